@@ -92,11 +92,10 @@ exception injected at any stage, any traits, any `K[0]` — a call that returns 
 theorem failed_integration_leaves_s1_untouched (p : Bool) (s : Script α)
     (h : (integrate ⟨true, p⟩ s).ret = -1) :
     ∀ o ∈ (integrate ⟨true, p⟩ s).written, o.isS1 = false := by
-  have hb := body_late_spec p s { ev := [.ctor, .pol s.policy], rdt := s.rdt0, msg := .unset }
-    (by simp [NoS1, AllEv, NotS1])
+  have hb := body_late_spec p s (st0 s) (by simp [st0, NoS1, AllEv, NotS1])
   have key : NoS1 (integrate ⟨true, p⟩ s).st := by
     simp only [integrate] at h ⊢
-    generalize body ⟨true, p⟩ s _ = r at hb h ⊢
+    generalize body ⟨true, p⟩ s (st0 s) = r at hb h ⊢
     cases r with
     | next st =>
       simp only [] at h
